@@ -138,6 +138,11 @@ pub fn check(cx: &Cx, rep: &mut Report) {
         }
     }
     super::stop_starvation("C04", cx, rep);
+    // R3 (cont.): after an accepted stop the actor is on its way out: never idle and alive at a quiescent point
+    rep.premise_n("C04.R3.not_idle_after_accepted_stop", fx.values().filter(|a| a.first_accept_r().is_some()).count() as u64);
+    for (tag, acc, q) in super::idle_after_accepted_stop(cx) {
+        rep.fail(P, "R3", "idle_alive_after_accepted_stop", format!("actor tag {tag} accepted a stop request (returned at #{acc}) but is idle and alive at the quiescent point #{q}"), vec![acc, q]);
+    }
     rep.nontrivial = nontrivial;
 }
 
